@@ -152,6 +152,11 @@ class Rec:
         self.events.append(dict(ev="newiter", p=self.pid(x), **self.snap()))
 
     def attach(self, problem, fnames):
+        if self.problem is not None:
+            # the driver instance goes on with another, fresh problem
+            self.events.append(dict(ev="switch"))
+            self.names_at = {}
+            self.pending = []
         self.problem = problem
         self.fnames = list(fnames)
         problem.database.add_store_listener(self.on_store)
@@ -160,8 +165,26 @@ class Rec:
 
 # ----------------------------------------------------------------------------- problems
 
-def build_problem(kind: str, rec: Rec, linear=False):
-    """kind: unc | ineq | eq | nan | nanc | raise | int ; returns the problem (an OptimizationProblem)."""
+def ms_f(x):
+    """Module-level (picklable) objective for the runs whose sub-optimizations are in other processes."""
+    return (x[0] - 0.5) ** 2 + (x[1] + 0.25) ** 2
+
+
+def ms_df(x):
+    return array([2 * (x[0] - 0.5), 2 * (x[1] + 0.25)])
+
+
+def obs_o(x):
+    return array([x[0] + x[1]])
+
+
+def obs_do(x):
+    return array([[1.0, 1.0]])
+
+
+def build_problem(kind: str, rec: Rec, linear=False, observable=False):
+    """kind: unc | ineq | eq | nan | nanc | raise | int | plain (unwrapped, picklable objective);
+    observable: add a new-iteration observable.  Returns the problem (an OptimizationProblem)."""
     from gemseo.algos.design_space import DesignSpace
     from gemseo.algos.optimization_problem import OptimizationProblem
     from gemseo.core.mdo_functions.mdo_function import MDOFunction
@@ -184,6 +207,13 @@ def build_problem(kind: str, rec: Rec, linear=False):
         if kind == "eq":
             problem.add_constraint(MDOLinearFunction(array([[1.0, -1.0]]), "h"), constraint_type="eq")
             fnames.append("h")
+        if observable:
+            problem.add_observable(MDOFunction(obs_o, "o", jac=obs_do))
+        rec.attach(problem, fnames)
+        return problem
+
+    if kind == "plain":
+        problem.objective = MDOFunction(ms_f, "f", jac=ms_df)
         rec.attach(problem, fnames)
         return problem
 
@@ -216,6 +246,8 @@ def build_problem(kind: str, rec: Rec, linear=False):
             MDOFunction(rec.wrap("h", "val", h), "h", jac=rec.wrap("h", "jac", lambda x: array([[1.0, -1.0]]))),
             constraint_type="eq")
         fnames.append("h")
+    if observable:
+        problem.add_observable(MDOFunction(obs_o, "o", jac=obs_do))
     rec.attach(problem, fnames)
     return problem
 
@@ -233,7 +265,11 @@ def classify(message):
     return "Normal"
 
 
-def execute(rec: Rec, lib, kind: str, settings: dict, *, grad: bool, nx: int = 3, kkt=False, composite=False):
+REFUSAL = "the sum of the maximum number of iterations"     # MultiStart._run's documented ValueError
+
+
+def execute(rec: Rec, lib, kind: str, settings: dict, *, grad: bool, nx: int = 3, kkt=False, composite=False,
+            sub=0):
     """Run lib.execute(problem, **settings) and append the exec / ... / end events."""
     problem = rec.problem
     db = problem.database
@@ -242,7 +278,7 @@ def execute(rec: Rec, lib, kind: str, settings: dict, *, grad: bool, nx: int = 3
                 useDb=bool(settings.get("use_database", True)), storeJac=bool(settings.get("store_jacobian", True)),
                 stopIfNan=bool(problem.stop_if_nan) if kind == "opt" else False,
                 maxTime=bool(settings.get("max_time", 0)), kkt=bool(kkt), nx=int(nx), samples=[],
-                composite=bool(composite),
+                composite=bool(composite), obs=bool(len(problem.new_iter_observables)), sub=int(sub),
                 **rec.snap())
     rec.events.append(head)
     start = rec.start = len(rec.events)
@@ -289,6 +325,7 @@ def execute(rec: Rec, lib, kind: str, settings: dict, *, grad: bool, nx: int = 3
     # the exception that escaped is that of a user function (libraries may re-wrap it)
     user_raise = exc is not None and any(e["ev"] == "orig" and e["out"] == "raise" for e in rec.events[start:])
     rec.events.append(dict(ev="end", cause=cause, result=bool(has), xopt=int(xopt), crashed=exc is not None,
+                           refused=isinstance(exc, ValueError) and REFUSAL in str(exc),
                            userRaise=bool(user_raise), exc=type(exc).__name__ if exc is not None else "",
                            excmsg=repr(exc)[:60].encode("ascii", "replace").decode() if exc is not None else "",
                            nni=len(ni) + (0 if ours_ni else 1), nsl=len(st) + (0 if ours_st else 1),
